@@ -1,4 +1,4 @@
-import time, vf
+import os, time, vf
 PID = "C02"
 def main(tier, args):
     t0 = time.time()
@@ -10,15 +10,24 @@ def main(tier, args):
     exe14 = vf.build("C02/timers14", [vf.VERIF + "/checks/C02/harness.cpp"], srcs, mode="asan", extra_flags=["-std=c++14"], plain_srcs=stub)
     quick = tier == "quick"
     dt, dp, dl, np = (5, 5, 240, 4) if quick else (7, 7, 1300, 8)       # dl: per-process real-time deadline (s); the harness virtualises the clock only while code under test runs, so the deadline is effective
-    d_reinit = 6 if quick else 7        # configuration 3 (2 timers, every initialize() variant)
+    d_reinit = 6 if quick else 7        # configuration 3 (2 timers, every initialize() variant, one timer born uninitialised)
     d_sleep = 5 if quick else 6         # configuration 4 (exitLoop(T) + runLoop(kForever), simulated sleep)
+    d_big = 4 if quick else 6           # configurations 5..10 (intervals around 2^31, 2^32, 2^33 ms and 30/60/75 days)
+    # configuration 11 (an interval / exit wait in [2^31, 2^32) ms in the sleeping lane) is OFF by default: on the unchanged tree the epoll back-end
+    # hands getWaitTime()'s int64 to epoll_wait's int, the time-out turns negative and the loop blocks for ever -> C02_BIG_SLEEP=1 shows it
+    big_sleep = os.environ.get("C02_BIG_SLEEP", "0") not in ("", "0")
     res = vf.Result(); log = open(vf.BUILD + "/C02/log.txt", "w")
     jobs = []
     for e in ("epoll", "select"):
         for cfg in (0, 1, 2, 3, 4):
+            if quick and ((cfg == 1 and e != "epoll") or (cfg == 2 and e != "select")): continue      # quick: the two 4-timer configurations on one back-end each (the timer code is common to both back-ends)
             d = {0: dt, 1: dt if not quick else dt - 1, 2: dt if not quick else dt - 1, 3: d_reinit, 4: d_sleep}[cfg]      # quick: the 4-timer configurations one level shallower
             for p in range(np):
                 jobs.append(("timer:%s:cfg%d:p%d" % (e, cfg, p), [exe, "timer", e, str(d), str(cfg), str(p), str(np)]))
+        for cfg in (5, 6, 7, 8, 9, 10):
+            jobs.append(("timer:%s:cfg%d" % (e, cfg), [exe, "timer", e, str(d_big), str(cfg)]))
+        if big_sleep:
+            jobs.append(("timer:%s:cfg11" % e, [exe, "timer", e, "3", "11"], {"C02_BIG_SLEEP": "1"}))
         # heap lane: every insertion order of 6 (quick) / 6,7,8 (thorough) one-shot timers x every single removal
         jobs.append(("heap:%s:n6" % e, [exe, "heap", e, "6", "0", "1"]))
         for p in range(4): jobs.append(("heap:%s:n7:p%d" % (e, p), [exe, "heap", e, "7", str(p), "4"]))
@@ -29,23 +38,31 @@ def main(tier, args):
         for p in range(4): jobs.append(("heapb:%s:n6:p%d" % (e, p), [exe, "heapb", e, "6", str(p), "4", pooled]))
         if not quick:
             for p in range(16): jobs.append(("heapb:%s:n7:p%d" % (e, p), [exe, "heapb", e, "7", str(p), "16", pooled]))
+        # late lane: one pass after 1e2 / 1e3 / 1e5 ms of lateness
+        jobs.append(("late:%s" % e, [exe, "late", e, pooled]))
         dpool = dp if not quick else dp - 1
         for p in range(np):
-            jobs.append(("pool:%s:p%d" % (e, p), [exe, "pool", e, str(dpool), "0", str(p), str(np)]))
+            if e == "select" or not quick: jobs.append(("pool:%s:p%d" % (e, p), [exe, "pool", e, str(dpool), "0", str(p), str(np)]))
             if e == "epoll": jobs.append(("pool14:%s:p%d" % (e, p), [exe14, "pool", e, str(dpool), "0", str(p), str(np)], {"C02_POOLED": "1"}))
     if args.only: jobs = [j for j in jobs if j[0] == args.only]
     vf.run_procs(res, jobs, env={"VERIF_DEADLINE_S": str(dl)}, log=log)
     vf.finish(PID, tier, res, t0,
-              rule="BFS over all histories (depth %d; 4-timer configurations and pool one less in the quick tier) of enable/disable/destroy/reinit/advance(0,1,2,3,7 ms)+loop-pass/tick(3 ms, clock moves without a pass so the next op meets overdue timers) on 3-4 real TimerEvents (persistent and one-shot, intervals 1-5 ms, equal deadlines included) "
-                   "with one callback script out of: disable/destroy/enable/restart another timer or itself, the same after a slow callback (clock +2 ms inside the pass), initialize() with unchanged parameters on itself/another timer with or without a following enable (or two of the plain scripts on two timers); "
-                   "configuration 3 (depth %d): 2 timers with initialize(same parameters | other interval | other mode) at top level and in callbacks, mode is per-run model state; "
-                   "configuration 4 (depth %d, timer records pooled): 3 timers with exitLoop(T in 1,4,7 ms)+runLoop(kForever) where epoll_wait/select are interposed so that the time-out the loop asks for elapses exactly on the virtual clock (a -1 time-out while a timer or the exit timer is pending, or returning before T, is a violation), callbacks may also call exitLoop(2 ms) once; "
-                   "(depth %d) doEvery/doAfter/doAt/cancel/cleanup/advance/tick on the real TimerPool with callbacks that cancel, clean up and add timers (also after a slow callback), built twice: C++11 with de-pooled timer records (both back-ends) and C++14 (the other doAfter branch) with pooled records (epoll); "
+              rule="BFS over all histories (depth %d; 4-timer configurations and pool one less in the quick tier, where configuration 1 runs on epoll and configuration 2 on select only) of enable/disable/destroy/reinit/advance(0,1,2,3,7 ms)+loop-pass/tick(3 ms, clock moves without a pass so the next op meets overdue timers)/tick(400 us, configuration 4) on 3-4 real TimerEvents (persistent and one-shot, intervals 1-5 ms, equal deadlines included) "
+                   "with ONE callback script out of: disable-self, reenable-self, disable/destroy/enable/restart another timer, each of the last five also after a slow callback (clock +2 ms inside the pass), slow only, initialize() with unchanged parameters on itself/another timer with or without a following enable, "
+                   "disable/destroy/enable/restart of a timer from the runNext callback of every pass (after the timer scan of the same iteration) - or TWO of the six plain scripts on two different timers; "
+                   "configuration 3 (depth %d): 2 timers, one of them never initialised at first (enable/disable before initialize must leave it silent), initialize(same parameters | other interval | other mode) at top level and in callbacks, mode is per-run model state; "
+                   "configuration 4 (depth %d, timer records pooled): 3 timers with exitLoop(T in 1,4,7 ms)+runLoop(kForever) where epoll_wait/select are interposed so that the time-out the loop asks for elapses on the virtual clock, exactly or (T=7) cut to half (early wake-up); "
+                   "a -1 time-out while a timer or the exit timer is pending, a time-out longer than the time to the earliest model deadline, returning before T, or not returning, is a violation; callbacks may also call exitLoop(2 ms) once; "
+                   "configurations 5-10 (depth %d, plain scripts, no pairs): a one-shot and a persistent timer with intervals 2^31+-1, 2^32+3/-1, 2^33+-1 ms, 30, 60, 75 days (+-1 ms) beside a 2 ms one-shot, advance to 2 ms before / exactly the smaller deadline (ops that would owe more than 64 callbacks are skipped); "
+                   "(depth %d) doEvery/doAfter/doAt/cancel/cleanup/delete-pool (then only advance/tick)/advance/tick on the real TimerPool with callbacks that cancel themselves, an older or a newer timer, clean up, add doAfter (also after a slow callback) or doEvery, built twice: C++11 with de-pooled timer records (select; thorough: both back-ends) and C++14 (the other doAfter branch) with pooled records (epoll); "
                    "heap lane: every enable order of 6 and 7 (thorough also 8) one-shot timers with distinct deadlines x every single disable/destroy, 1 ms steps; "
                    "heap lane B: every enable order of 6 (thorough also 7) persistent timers with intervals 1..n, 1 ms steps, at tick k in 1..n one victim is disabled (and enabled again two ticks later) or destroyed, at top level or inside another timer's callback during the scan, k+n+3 passes; "
-                   "virtual monotonic clock; both back-ends; reference = per-timer deadline model (deadline = clock at enable + interval, += interval per firing) checked inside every callback (not early, deadline order, enabled, alive) and after every pass (nothing due at the time the pass woke up is left unfired); "
-                   "state key = model + the loop's timer heap in array order + timer cabinet cell/free-list shape (+ TimerPool's own cabinet shape, id counter and number of cleanups); ASan" % (dt, d_reinit, d_sleep, dp),
-              assumptions=["timers with equal deadlines may fire in either order (DESIGN 1.7)", "clock reads are interposed at clock_gettime (libstdc++ steady_clock)",
-                           "run-for lane: the back-end's sleep is exact (time-out T>0 advances the clock by T, a sub-millisecond select time-out counts as 1 ms, 8 consecutive zero time-outs as 1 ms); lateness is not judged, only early / never / skipped",
+                   "late lane: every subset of {every 1, 7, 1000 ms, once after 5 ms}, enabled together or 3 ms apart, lateness 1e2/1e3/1e5 ms then ONE pass, twice: firing count == floor((now-t)/d), deadline order; "
+                   "virtual clocks: monotonic in ms+us, CLOCK_REALTIME/gettimeofday = monotonic + 1.7e12 ms; both back-ends; reference = per-timer deadline model (deadline = floor-ms clock at enable + interval, += interval per firing) checked inside every callback (not early, deadline order, enabled, alive) and after every pass (nothing due at the time the pass woke up is left unfired); "
+                   "state key = model + the loop's timer heap in array order + timer cabinet cell/free-list shape + each enabled timer's cabinet cell (+ TimerPool's own cabinet shape, id counter and number of cleanups), private members read through SFINAE probes (fallback: op history); ASan" % (dt, d_reinit, d_sleep, d_big, dp),
+              assumptions=["timers with equal deadlines may fire in either order (DESIGN 1.7)", "clock reads are interposed at clock_gettime (libstdc++ steady_clock / system_clock) and gettimeofday",
+                           "granularity is 1 ms: the loop truncates the monotonic clock to whole milliseconds, so 'not before t+d' is judged on floor(clock/1ms) - a timer enabled at x.9 ms with d=1 may fire at (x+1).0",
+                           "run-for lane: the back-end sleeps what it is asked to (or half of it), a sub-millisecond select time-out counts as 1 ms, 8 consecutive zero time-outs as 1 ms; a wake-up later than requested is not modelled there (the pass lanes do that)",
                            "a timer that becomes due because a callback of the same pass was slow need not fire in that pass (due is judged against the clock at wake-up)",
-                           "raw CommonLoop::addTimer with repeat >= 2 is not driven (TimerEvent only issues 0 and 1)"])
+                           "raw CommonLoop::addTimer with repeat >= 2 is not driven (TimerEvent only issues 0 and 1); return values of enable/disable/initialize are not judged; no op is issued from runInLoop or FdEvent callbacks (runNext covers 'after the scan, loop running')",
+                           "intervals in [2^31, 2^32) ms (mod 2^32) in the SELF-SLEEPING lane are switched off (C02_BIG_SLEEP=1): epoll back-end passes a 64-bit wait to epoll_wait's int -> negative -> blocks for ever; history: exitLoop(2147483653)+runLoop(kForever)"])
